@@ -10,6 +10,11 @@ Ltac Zify.zify_post_hook ::= Z.to_euclidean_division_equations.
 
 (* ------------------------------------------------------------------ geom(radius) *)
 
+(* The constants regenerated from _filter.cpp are those of the regular octagon, side = 2r/(1+sqrt 2)
+   with 1+sqrt 2 ~ 2.414213.  Fails at once (and with it everything below) when the source changes. *)
+Lemma gen_consts : gen_oct_num = 2000000 /\ gen_oct_den = 2414213.
+Proof. split; reflexivity. Qed.
+
 Theorem geom_octagon (radius : Z) : 1 <= radius ->
   let R := oct_R radius in let a2 := oct_a2 radius in
   1 <= a2 /\ a2 < R /\ radius <= R /\
